@@ -23,7 +23,11 @@ HASHSEEDS = ("0", "1", "7", "12345")
 def run_workers(prop, tier, seed, mod, extra_env=None):
     n = mod.SHARDS[tier]
     n = max(1, min(n, (os.cpu_count() or 4)))
-    tmp = tempfile.mkdtemp(prefix="dynmon-%s-" % prop)
+    # scratch space (worker results, the files the I/O checks write and read back): memory-backed when the
+    # platform offers it, so that a busy disk cannot stretch the wall-clock time of a CPU-budgeted run
+    shm = "/dev/shm"
+    base = shm if os.path.isdir(shm) and os.access(shm, os.W_OK | os.X_OK) else None
+    tmp = tempfile.mkdtemp(prefix="dynmon-%s-" % prop, dir=base)
     procs = []
     hs_fixed = os.environ.get("DYNMON_HASHSEED")
     try:
